@@ -56,6 +56,10 @@ def check(run, repo, world):
     _check_decode(run, repo, world, folder, values, masks, spec)
     _check_inverse(run, repo, world, values)
     _check_from_list_order(run, repo, world)
+    _check_registration_guards(run, repo, world)
+    # string / number -> raw conversions (shared with C10: R-MEMW-RAW)
+    from .C10 import _check_value_to_raw
+    _check_value_to_raw(run, repo, world, repo.mod(LOC))
     run.exhaustive = False
 
 
@@ -354,34 +358,34 @@ def _check_decode(run, repo, world, folder, values, masks, spec):
                    bool(fl["Invalid"]) == (lim or r["kind"] == "string"),
                    "Invalid reachable: %s; limits declared: %s" % (
                        bool(fl["Invalid"]), lim), where(mod, d.cls.node))
-        # order of the checks along every path, and flag <-> fact agreement
+        # flag <-> fact agreement on every outcome (multi-byte values carry
+        # the comparison with the all-ones / all-ones-minus-one pattern as an
+        # equality fact on raw): MASK only where raw == ff..ff, TMASK only
+        # where raw == ff..fe and not ff..ff, a value / Invalid never where
+        # a supported pattern matched
+        import re as _re
         bad_order = None
+        pat = _re.compile(r"^raw(\[\d+:\d+\])? == ([0-9a-f]+)$")
         for o in rets:
-            idx = {}
-            for i, (txt, val) in enumerate(o.trail):
-                for key in ("raw == cls.mask", "raw == cls.tmask",
-                            "not cls.is_valid(raw)"):
-                    if txt == key and key not in idx:
-                        idx[key] = i
-            seq = [idx.get(k) for k in ("raw == cls.mask", "raw == cls.tmask",
-                                        "not cls.is_valid(raw)")]
-            seq = [x for x in seq if x is not None]
-            if seq != sorted(seq):
-                bad_order = o.trail
-            if o.val.kind == "flag":
-                t = dict((a, b) for a, b in o.trail)
-                if o.val.val == "MASK" and t.get("raw == cls.mask") is not \
-                        True:
+            ones = tm = None
+            for (txt, val) in o.trail:
+                m_ = pat.match(txt)
+                if not m_:
+                    continue
+                hx = m_.group(2)
+                if set(hx) == {"f"}:
+                    ones = val if ones is None else (ones or val)
+                elif set(hx[:-1]) <= {"f"} and hx[-1] == "e":
+                    tm = val if tm is None else (tm or val)
+            if o.val.kind == "flag" and o.val.val == "MASK":
+                if ones is False:
                     bad_order = o.trail
-                if o.val.val == "TMASK" and (
-                        t.get("raw == cls.tmask") is not True
-                        or t.get("raw == cls.mask") is True):
+            elif o.val.kind == "flag" and o.val.val == "TMASK":
+                if tm is False or ones is True:
                     bad_order = o.trail
             else:
-                t = dict((a, b) for a, b in o.trail)
-                if t.get("raw == cls.mask") is True or t.get(
-                        "raw == cls.tmask") is True or t.get(
-                            "not cls.is_valid(raw)") is True:
+                if (ones is True and r["mask"]) or (tm is True and
+                                                    r["tmask"]):
                     bad_order = o.trail
         run.ob("R-DECODE", d.qname + "#check-order", bad_order is None,
                "checks are not made in the order MASK, TMASK, validity or a "
@@ -463,3 +467,53 @@ def _check_from_list_order(run, repo, world):
                len(loops) == 1 and unparse(loops[0].iter) == "cls.locations",
                "%s must assemble the bytes in cls.locations order" % m,
                where(mod, fn), trivial=True)
+
+
+def _check_registration_guards(run, repo, world):
+    """MemoryBank._add_memory_value refuses an overlapping location and a
+    lockable location in a bank without a lock byte - for every value that
+    is ever declared, not only the shipped ones."""
+    run.rule("R-MAP-GUARD", "registration refuses overlapping locations and "
+             "lockable locations in banks without a lock byte")
+    c = world.cls(LOC + ".MemoryBank")
+    fn = c.methods["_add_memory_value"][1]
+    mod = repo.mod(LOC)
+    guards = []
+    for n in ast.walk(fn):
+        if isinstance(n, ast.If) and any(isinstance(x, ast.Raise)
+                                         for x in n.body):
+            exc = [unparse(x.exc.func if isinstance(x.exc, ast.Call)
+                           else x.exc) for x in n.body
+                   if isinstance(x, ast.Raise)][0]
+            guards.append((n.test, exc))
+    lock = [t for (t, e) in guards if e == "LockingNotSupported"]
+    over = [t for (t, e) in guards if e == "MemoryLocationOverlap"]
+    if not lock or not over:
+        raise AnalysisError("MemoryBank._add_memory_value: refusal guards "
+                            "not found in a recognisable form")
+    okl = False
+    for t in lock:
+        parts = [unparse(v) for v in (t.values if isinstance(
+            t, ast.BoolOp) and isinstance(t.op, ast.And) else [t])]
+        known = {"location.type_ == MemoryType.NVM_RW_L",
+                 "MemoryType.NVM_RW_L == location.type_",
+                 "location.type_ is MemoryType.NVM_RW_L"}
+        lk = {"not self.has_lock", "self.has_lock is False",
+              "self.has_lock == False"}
+        if set(parts) & known and set(parts) & lk and len(parts) == 2:
+            okl = True
+        elif not (set(parts) & known):
+            raise AnalysisError("MemoryBank._add_memory_value: lock guard "
+                                "`%s` not in a recognisable form"
+                                % unparse(t))
+    run.ob("R-MAP-GUARD", LOC + ".MemoryBank._add_memory_value#lockable",
+           okl, "a lockable (NVM_RW_L) location must be refused exactly when "
+           "the bank has no lock byte (`not self.has_lock`); the guard is "
+           "`%s` (a latch-only bank also owns a LockByte object)"
+           % " / ".join(unparse(t) for t in lock), where(mod, fn))
+    oko = any(unparse(t) in ("self.locations[location.address]",
+                             "self.locations[location.address] is not None")
+              for t in over)
+    run.ob("R-MAP-GUARD", LOC + ".MemoryBank._add_memory_value#overlap",
+           oko, "an already occupied location must be refused (guard `%s`)"
+           % " / ".join(unparse(t) for t in over), where(mod, fn))
